@@ -9,12 +9,13 @@ import SqlModel.Grouping.DelimSafe
 The domain is defined here so that the driver can evaluate it (`wsdomain`).
 
 * `noCommentTok`, `noAssignTok`: no comment token, no `:=` token (real exclusions: witness pairs on the library).
-* `WsDomain`: on the two intermediate trees handed to `group_functions` and `group_where`
-  - `fnLevel`/`fnOKL`: the `CREATE TABLE … AS` test of `group_functions` (it reads the *text* of every child,
-    whitespace children included) has the same outcome with and without the whitespace children, at every level;
-  - `whLevel`/`whOKL`: every parenthesis/bracket group starts and ends with a child that is neither whitespace nor the
-    keyword `WHERE` (`group_where` takes `_groupable_tokens[-1]`, i.e. `tokens[-2]`, without looking at `tokens[-1]`).
-  Both are artefacts of the abstract model (arbitrary token streams): they hold for every tree the library builds.
+* `WsDomain`: on the intermediate tree handed to `group_functions`, `fnLevel`/`fnOKL`: the `CREATE TABLE … AS` test of
+  `group_functions` (it reads the *text* of every child, whitespace children included) has the same outcome with and
+  without the whitespace children, at every level.  An artefact of the abstract model (arbitrary token values and an
+  arbitrary `upper`): no whitespace token and no group of the library spells `CREATE`/`TABLE`/`AS`.
+* `whLevel`/`whOKL` (every parenthesis/bracket group starts and ends with a child that is neither whitespace nor the
+  keyword `WHERE`; `group_where` takes `_groupable_tokens[-1]`, i.e. `tokens[-2]`, without looking at `tokens[-1]`) is
+  *not* part of the domain: it is proved for the tree `group_where` receives (`SqlProofs/WsInv/Ends.lean`).
 -/
 namespace Sql
 
@@ -56,15 +57,12 @@ def noCommentTok (st : List Tok) : Bool := st.all fun t => !t.tt.isIn T.Comment
 /-- the flat statement has no `:=` token -/
 def noAssignTok (st : List Tok) : Bool := st.all fun t => t.tt != T.Assignment
 
-/-- the conditions on the intermediate trees handed to `group_functions` and `group_where` -/
+/-- the condition on the intermediate tree handed to `group_functions` (the first eight passes have run): the
+`CREATE TABLE … AS` test is not affected by the whitespace children, at any level -/
 def WsDomain (u : Text → Text) (fuel : Nat) (st : List Tok) : Bool :=
   match runPasses u fuel .Statement (Gen.passOrder.take 8) (flatStatement st) with
   | .error _ => true
-  | .ok m8 =>
-    fnLevel u m8 && fnOKL u m8 &&
-      match passByName u "group_functions" fuel .Statement m8 with
-      | .error _ => true
-      | .ok m9 => whOKL u m9
+  | .ok m8 => fnLevel u m8 && fnOKL u m8
 
 def InDomainWith (u : Text → Text) (fuel : Nat) (st : List Tok) : Bool :=
   noCommentTok st && noAssignTok st && WsDomain u fuel st
